@@ -57,7 +57,7 @@ GENERATORS = [
     ('FsmGen.v', [PY, '-B', os.path.join(HERE, 'translate_fsm.py'),
                   os.path.join(REPO, 'yabgp/core/fsm.py')],
      {'C01', 'C02', 'C03', 'C04', 'C05', 'C10', 'C12', 'C13', 'C16', 'C18'}),
-    ('Inventory.v', [PY, '-B', os.path.join(HERE, 'inventory.py')], {'C11'}),
+    ('Inventory.v', [PY, '-B', os.path.join(HERE, 'inventory.py')], {'C11', 'C15'}),
     ('RestInventory.v', [PY, '-B', os.path.join(HERE, 'inventory_rest.py')], {'C16'}),
 ]
 
@@ -70,6 +70,11 @@ def regen(prop=None):
     with Lock('gen'):
         for name, cmd, deps in GENERATORS:
             if not os.path.exists(cmd[2]):
+                continue
+            # a check regenerates only what its own Coq files import (a missing file is always generated, so
+            # that a partial tree still builds); `regen` without a property regenerates everything
+            if prop is not None and deps is not None and prop not in deps and \
+                    os.path.exists(os.path.join(COQ, 'gen', name)):
                 continue
             rc, out = sh(cmd + [os.path.join(COQ, 'gen', name)], timeout=300)
             if rc != 0 and (prop is None or deps is None or prop in deps):
